@@ -28,7 +28,7 @@ pub const PROPS: &[PropSpec] = &[
         rule: "non-trivial: a dispatch blocked on the full dispatch queue (seam event Block on ChanSend of the store's queue) under BlockOnFull" },
     PropSpec { id: "C06", families: &[("bp", 10)], borrowed: &[], quick_runs: 64_000,
         rule: "non-trivial: a drop policy actually discarded an action (metric or Err result) in the run" },
-    PropSpec { id: "C07", families: &[("core", 4), ("mw", 4), ("sub", 2)], borrowed: &[], quick_runs: 96_000,
+    PropSpec { id: "C07", families: &[("core", 4), ("mw", 4), ("sub", 2)], borrowed: &[("C03", "sub"), ("C03", "core"), ("C03", "mw")], quick_runs: 96_000,
         rule: "non-trivial: >=2 kinds of reducer-context callbacks ran for >=2 actions while another client thread was runnable" },
     PropSpec { id: "C08", families: &[("core", 10)], borrowed: &[], quick_runs: 96_000,
         rule: "non-trivial: a get_state() call overlapped a pipeline instance in time, or a read happened inside a callback" },
